@@ -506,6 +506,17 @@ pub fn c12(case: &Case) -> Verdict {
             order.push(e.uid);
         }
     }
+    // thread-local systems registered on a builder that was passed to add_batch run once per inner dispatch
+    // (on which thread is known finding KF1 and not checked here)
+    {
+        let exp = expected_runs(&infos, 1, 1, false);
+        for i in infos.iter().filter(|i| i.kind == Kind::Tl && i.parent.is_some()) {
+            let n = evs.iter().filter(|e| e.uid == i.uid && e.k == EvK::Enter).count();
+            if n != exp[i.uid] {
+                return Fails(format!("{} (registered on a builder passed to add_batch) ran {} times in one dispatch, {} inner dispatches were made", nm(i), n, exp[i.uid]));
+            }
+        }
+    }
     let want: Vec<usize> = tls.iter().map(|i| i.uid).collect();
     if order != want {
         return Fails(format!("thread-local systems ran in order {:?}, registered in order {:?}", order, want));
